@@ -511,6 +511,13 @@ static inline int in_focus(void* a, int sz) {
   return 0;
 }
 static int env_observer;  // set by the callers that are about to observe the environment (epoll, descriptor syscalls)
+static int on_stack(void* a) {
+  uintptr_t x = (uintptr_t)a;
+  if (x >= 0x7f0000000000ull) return 1;  // kernel-thread stacks
+  for (int i = 0; i < fmc_nfstacks; i++)
+    if (x >= fmc_fstacks[i].lo && x < fmc_fstacks[i].hi) return 1;
+  return 0;
+}
 static void sched_point(void* addr, int sz, int w, int always, void* pc, int flush, int plainw) {
   if (!fmc_is_exploring) return;
   int observes_env = env_observer || (SH->envall && always);
@@ -608,8 +615,13 @@ static void sched_point(void* addr, int sz, int w, int always, void* pc, int flu
         memcpy(t->pw_old, addr, sz);
       }
       if (fmc_tso && others_alive()) {
-        if (t->sb.n) sb_append(t, addr, sz, 0);  // FIFO: queues behind the delayed store
-        else if (in_S && choose(K_DELAY, 3, 0, 0, sh) == 1) sb_append(t, addr, sz, 0);
+        // -weakrmw: the buffer outlives read-modify-writes, calls and returns; a buffered store to a stack
+        // slot would be overlaid onto whatever uninstrumented code (call/push) has put there since. Stack
+        // stores are therefore never buffered in that mode: they commit the buffer early (always legal)
+        int stk = SH->weakrmw && on_stack(addr);
+        if (t->sb.n && stk) sb_flush(t);
+        else if (t->sb.n) sb_append(t, addr, sz, 0);  // FIFO: queues behind the delayed store
+        else if (in_S && !stk && choose(K_DELAY, 3, 0, 0, sh) == 1) sb_append(t, addr, sz, 0);
       }
     } else if (plainw && shared_loc) {
       progress();
@@ -914,12 +926,24 @@ void __tsan_vptr_read(void** a) {}
 static int atomic_store_delay(void* a, int sz, int mo, uint32_t sh, const void* newv) {
   struct th* t = &T[me];
   if (!fmc_is_exploring || !fmc_tso || mo == SEQ || !others_alive()) return 0;
+  if (SH->weakrmw && on_stack(a)) { sb_flush(t); return 0; }
   if (t->sb.n || choose(K_DELAY, 3, 0, 0, sh) == 1) {
     sb_append(t, a, sz, newv);
     return 1;
   }
   return 0;
 }
+// -weakrmw (C11 rather than x86 semantics for read-modify-writes): an RMW whose memory order has no
+// release component (relaxed/consume/acquire) does not order the thread's earlier stores, so it does
+// not drain a non-empty store buffer - unless a buffered store is to the same location (coherence).
+// The RMW itself acts on memory at once. x86 hardware never does this (a locked instruction drains the
+// buffer) but the language allows it, and a compiler may sink plain stores below such an operation.
+static int sb_overlaps(struct th* t, const volatile void* a, int sz) {
+  for (int i = 0; i < t->sb.n; i++)
+    if ((uintptr_t)t->sb.e[i].addr < (uintptr_t)a + sz && (uintptr_t)a < (uintptr_t)t->sb.e[i].addr + t->sb.e[i].sz) return 1;
+  return 0;
+}
+#define RMWF(a, sz, mo) (!SH->weakrmw || (mo) >= 3 || sb_overlaps(&T[me], (a), (sz)))
 #define AT(bits, Ty)                                                                                              \
   Ty __tsan_atomic##bits##_load(const volatile Ty* a, int mo) {                                                   \
     sched_point((void*)a, bits / 8, 0, 2, RA, 0, 0);                                                              \
@@ -936,57 +960,57 @@ static int atomic_store_delay(void* a, int sz, int mo, uint32_t sh, const void* 
     __atomic_store_n(a, v, __ATOMIC_SEQ_CST);                                                                     \
   }                                                                                                               \
   Ty __tsan_atomic##bits##_exchange(volatile Ty* a, Ty v, int mo) {                                               \
-    sched_point((void*)a, bits / 8, 1, 2, RA, 1, 0);                                                              \
+    sched_point((void*)a, bits / 8, 1, 2, RA, RMWF(a, bits / 8, mo), 0);                                                              \
     if (*a != v && fmc_is_exploring) progress_at((void*)a, bits / 8);                                                                 \
     wl('X', a, bits / 8, *a, v);                                                                                  \
     return __atomic_exchange_n(a, v, __ATOMIC_SEQ_CST);                                                           \
   }                                                                                                               \
   Ty __tsan_atomic##bits##_fetch_add(volatile Ty* a, Ty v, int mo) {                                              \
-    sched_point((void*)a, bits / 8, 1, 2, RA, 1, 0);                                                              \
+    sched_point((void*)a, bits / 8, 1, 2, RA, RMWF(a, bits / 8, mo), 0);                                                              \
     if (v && fmc_is_exploring) progress_at((void*)a, bits / 8);                                                                       \
     wl('A', a, bits / 8, *a, (Ty)(*a + v));                                                                       \
     return __atomic_fetch_add(a, v, __ATOMIC_SEQ_CST);                                                            \
   }                                                                                                               \
   Ty __tsan_atomic##bits##_fetch_sub(volatile Ty* a, Ty v, int mo) {                                              \
-    sched_point((void*)a, bits / 8, 1, 2, RA, 1, 0);                                                              \
+    sched_point((void*)a, bits / 8, 1, 2, RA, RMWF(a, bits / 8, mo), 0);                                                              \
     if (v && fmc_is_exploring) progress_at((void*)a, bits / 8);                                                                       \
     wl('A', a, bits / 8, *a, (Ty)(*a - v));                                                                       \
     return __atomic_fetch_sub(a, v, __ATOMIC_SEQ_CST);                                                            \
   }                                                                                                               \
   Ty __tsan_atomic##bits##_fetch_and(volatile Ty* a, Ty v, int mo) {                                              \
-    sched_point((void*)a, bits / 8, 1, 2, RA, 1, 0);                                                              \
+    sched_point((void*)a, bits / 8, 1, 2, RA, RMWF(a, bits / 8, mo), 0);                                                              \
     if ((Ty)(*a & v) != *a && fmc_is_exploring) progress_at((void*)a, bits / 8);                                                      \
     return __atomic_fetch_and(a, v, __ATOMIC_SEQ_CST);                                                            \
   }                                                                                                               \
   Ty __tsan_atomic##bits##_fetch_or(volatile Ty* a, Ty v, int mo) {                                               \
-    sched_point((void*)a, bits / 8, 1, 2, RA, 1, 0);                                                              \
+    sched_point((void*)a, bits / 8, 1, 2, RA, RMWF(a, bits / 8, mo), 0);                                                              \
     if ((Ty)(*a | v) != *a && fmc_is_exploring) progress_at((void*)a, bits / 8);                                                      \
     return __atomic_fetch_or(a, v, __ATOMIC_SEQ_CST);                                                             \
   }                                                                                                               \
   Ty __tsan_atomic##bits##_fetch_xor(volatile Ty* a, Ty v, int mo) {                                              \
-    sched_point((void*)a, bits / 8, 1, 2, RA, 1, 0);                                                              \
+    sched_point((void*)a, bits / 8, 1, 2, RA, RMWF(a, bits / 8, mo), 0);                                                              \
     if (v && fmc_is_exploring) progress_at((void*)a, bits / 8);                                                                       \
     return __atomic_fetch_xor(a, v, __ATOMIC_SEQ_CST);                                                            \
   }                                                                                                               \
   Ty __tsan_atomic##bits##_fetch_nand(volatile Ty* a, Ty v, int mo) {                                             \
-    sched_point((void*)a, bits / 8, 1, 2, RA, 1, 0);                                                              \
+    sched_point((void*)a, bits / 8, 1, 2, RA, RMWF(a, bits / 8, mo), 0);                                                              \
     if (fmc_is_exploring) progress_at((void*)a, bits / 8);                                                                            \
     return __atomic_fetch_nand(a, v, __ATOMIC_SEQ_CST);                                                           \
   }                                                                                                               \
   Ty __tsan_atomic##bits##_compare_exchange_val(volatile Ty* a, Ty c, Ty v, int mo, int fmo) {                    \
-    sched_point((void*)a, bits / 8, 1, 2, RA, 1, 0);                                                              \
+    sched_point((void*)a, bits / 8, 1, 2, RA, RMWF(a, bits / 8, mo), 0);                                                              \
     if (*a == c && c != v && fmc_is_exploring) progress_at((void*)a, bits / 8);                                                       \
     __atomic_compare_exchange_n(a, &c, v, 0, __ATOMIC_SEQ_CST, __ATOMIC_SEQ_CST);                                 \
     return c;                                                                                                     \
   }                                                                                                               \
   int __tsan_atomic##bits##_compare_exchange_strong(volatile Ty* a, Ty* c, Ty v, int mo, int fmo) {               \
-    sched_point((void*)a, bits / 8, 1, 2, RA, 1, 0);                                                              \
+    sched_point((void*)a, bits / 8, 1, 2, RA, RMWF(a, bits / 8, mo), 0);                                                              \
     if (*a == *c && *c != v && fmc_is_exploring) progress_at((void*)a, bits / 8);                                                     \
     wl(*a == *c ? 'C' : 'c', a, bits / 8, *a, v);                                                                 \
     return __atomic_compare_exchange_n(a, c, v, 0, __ATOMIC_SEQ_CST, __ATOMIC_SEQ_CST);                           \
   }                                                                                                               \
   int __tsan_atomic##bits##_compare_exchange_weak(volatile Ty* a, Ty* c, Ty v, int mo, int fmo) {                 \
-    sched_point((void*)a, bits / 8, 1, 2, RA, 1, 0);                                                              \
+    sched_point((void*)a, bits / 8, 1, 2, RA, RMWF(a, bits / 8, mo), 0);                                                              \
     if (*a == *c && *c != v && fmc_is_exploring) progress_at((void*)a, bits / 8);                                                     \
     wl(*a == *c ? 'C' : 'c', a, bits / 8, *a, v);                                                                 \
     return __atomic_compare_exchange_n(a, c, v, 0, __ATOMIC_SEQ_CST, __ATOMIC_SEQ_CST);                           \
